@@ -94,6 +94,23 @@ fn one_interval<C: Cs>(ctx: &Ctx, st: &Setup<C>, other: Option<&Setup<C>>, r: &m
             ctx.count("out_of_range_prover_refused_by_panic", 1);
         }
     }
+    // the empty interval [b, a]: no value lies in it, so no proof made for it may verify against it
+    {
+        let full = format!("{}/descending-bounds", case);
+        ctx.distinct(&full);
+        let x = Integer::from(&a + Integer::from(&w / 2u32));
+        let rr = rand_int_bits(r, C::ln);
+        let c = CL03Commitment { value: commit(&x, &rr, g, h, n), randomness: rr };
+        let p = ctx.call("Boudot::prove", &full, None, || Ok::<_, ()>(Rp::prove::<Sha256>(&x, &c, g, h, n, &b, &a)));
+        if let Some(p) = p.value {
+            let v = ctx.call("Boudot::verify", &full, None, || Ok::<_, ()>(p.verify::<Sha256>(g, h, n, &b, &a)));
+            if v.value == Some(true) {
+                ctx.violation("C16:proof-for-empty-interval-accepted", json!({"case":full,"rmin":ihex(&b),"rmax":ihex(&a),"x":ihex(&x)}));
+            }
+        } else {
+            ctx.count("out_of_range_prover_refused_by_panic", 1);
+        }
+    }
     let Some((x, _rr, proof, e)) = honest else { return };
     let j = serde_json::to_value(&proof).unwrap();
     let reject = |kind: &str, f: &dyn Fn() -> bool| {
@@ -117,6 +134,12 @@ fn one_interval<C: Cs>(ctx: &Ctx, st: &Setup<C>, other: Option<&Setup<C>>, r: &m
         reject("bounds#b-1", &|| proof.verify::<Sha256>(g, h, n, &a, &Integer::from(&b - &one)));
     }
     reject("bounds#shifted", &|| proof.verify::<Sha256>(g, h, n, &Integer::from(&a + &w), &Integer::from(&b + &w)));
+    // the empty interval [b, a] (bounds in descending order), the point interval [a, a], negated bounds
+    reject("bounds#swapped", &|| proof.verify::<Sha256>(g, h, n, &b, &a));
+    reject("bounds#point", &|| proof.verify::<Sha256>(g, h, n, &a, &a));
+    if Integer::from(-&b) != a {
+        reject("bounds#negated", &|| proof.verify::<Sha256>(g, h, n, &Integer::from(-&b), &Integer::from(-&a)));
+    }
     reject("bases#swapped", &|| proof.verify::<Sha256>(h, g, n, &a, &b));
     if st.cpk.g_bases.len() > 1 {
         reject("bases#other-g", &|| proof.verify::<Sha256>(&st.cpk.g_bases[1], h, n, &a, &b));
